@@ -9,8 +9,10 @@ import (
 	"encoding/json"
 	"fmt"
 	"os"
+	"runtime/metrics"
 	"strconv"
 	"strings"
+	"sync/atomic"
 	"time"
 
 	"rare/pkg/color"
@@ -125,9 +127,33 @@ func (e *env) ctxByName(p *exprgen.Prog, names []string) []exprgen.PlanEntry {
 	return out
 }
 
+// memoryGuard ends the worker (as a harness error, with the case named)
+// instead of letting a runaway evaluation take the machine down; exprcrash,
+// not this harness, is where non-returning programs are decided.
+func memoryGuard(w *runner.W, current func() any) {
+	sample := []metrics.Sample{{Name: "/memory/classes/heap/objects:bytes"}}
+	for {
+		time.Sleep(200 * time.Millisecond)
+		metrics.Read(sample)
+		if sample[0].Value.Kind() == metrics.KindUint64 && sample[0].Value.Uint64() > 2<<30 {
+			b, _ := json.Marshal(current())
+			fmt.Fprintf(os.Stderr, "expropt: heap beyond 2 GiB while running %s\n", b)
+			os.Exit(5)
+		}
+	}
+}
+
+var currentCase atomic.Value
+
 func worker(w *runner.W) {
 	cleanup := enterScratchDir()
 	defer cleanup()
+	go memoryGuard(w, func() any {
+		if f, ok := currentCase.Load().(func() any); ok {
+			return f()
+		}
+		return nil
+	})
 	e := newEnv(w)
 	only := w.Param("only", "")
 	var unit int64
@@ -239,7 +265,9 @@ func (e *env) optPhase(unit *int64, only string) {
 			if n&255 == 0 && w.Expired() {
 				return false
 			}
-			w.SetCase(func() any { return e.optCase(p, nil, "") })
+			cf := func() any { return e.optCase(p, nil, "") }
+			w.SetCase(cf)
+			currentCase.Store(cf)
 			e.optOne(p, nil)
 			return true
 		})
@@ -270,6 +298,12 @@ func (e *env) optOne(p *exprgen.Prog, plan []exprgen.PlanEntry) {
 	w := e.w
 	if plan == nil {
 		plan = exprgen.Plan(p, e.fixed)
+	}
+	if p.Hazard != "" && !p.Dynamic {
+		// constant arguments: the optimiser would run the non-returning call
+		// at compile time
+		w.Add("skipped_known_not_to_return_c08", 1)
+		return
 	}
 	kb := builders()
 	type result struct {
@@ -337,8 +371,15 @@ func (e *env) optOne(p *exprgen.Prog, plan []exprgen.PlanEntry) {
 		}
 		if r.vals[0] != r.vals[1] {
 			fn := p.Fn
+			if fn == "" {
+				fn = p.Family
+			}
+			note := ""
+			if strings.Contains(p.Template, "{@") {
+				note = "\n(range helpers take their sub-context from a shared pool; the harness had left in it a context whose keys are all 3 before compiling and one whose keys are all 5 before evaluating - a helper that does not reset its pooled sub-context reads those instead of the match)"
+			}
 			w.Violation("C10/opt-differs/"+fn,
-				fmt.Sprintf("optimised and unoptimised evaluation differ\ntemplate: %q\ngroups: %q\ncontext: %s\noptimised:   %q\nunoptimised: %q", p.Template, p.Groups, plan[i].Name, r.vals[0], r.vals[1]),
+				fmt.Sprintf("optimised and unoptimised evaluation differ\ntemplate: %q\ngroups: %q\ncontext: %s\noptimised:   %q\nunoptimised: %q%s", p.Template, p.Groups, plan[i].Name, r.vals[0], r.vals[1], note),
 				e.optCase(p, plan, "ctx="+plan[i].Name))
 		}
 	}
@@ -358,23 +399,29 @@ func (e *env) optOne(p *exprgen.Prog, plan []exprgen.PlanEntry) {
 type timeTemplate struct {
 	tmpl  string
 	kind  string // live | delta
+	shape string // where the clock-reading call sits (part of the signature)
 	funcs string // funcs file to load first
 }
 
 func timeTemplates() []timeTemplate {
 	return []timeTemplate{
-		{"{time live}", "live", ""},
-		{"{time delta}", "delta", ""},
-		{"{time LIVE}", "live", ""},
-		{"{time \"live\"}", "live", ""},
-		{"{sumi {time live} 0}", "live", ""},
-		{"{sumi {time delta} 0}", "delta", ""},
-		{"{coalesce {time live}}", "live", ""},
-		{"{if 1 {time delta}}", "delta", ""},
-		{"{maxi {time live} 0}", "live", ""},
-		{"{! \"0\"}{time live}", "live0", ""},
-		{"{tnow x}", "live", "tnow {time live}\n"},
-		{"{tdelta x}", "delta", "tdelta {sumi {time delta} 0}\n"},
+		{"{time live}", "live", "bare", ""},
+		{"{time delta}", "delta", "bare", ""},
+		{"{time LIVE}", "live", "bare", ""},
+		{"{time \"live\"}", "live", "bare", ""},
+		{"{sumi {time live} 0}", "live", "inside-helper", ""},
+		{"{sumi {time delta} 0}", "delta", "inside-helper", ""},
+		{"{coalesce {time live}}", "live", "inside-helper", ""},
+		{"{if 1 {time delta}}", "delta", "inside-helper", ""},
+		{"{maxi {time live} 0}", "live", "inside-helper", ""},
+		{"{sumi {sumi {time live} 0} 0}", "live", "inside-helper", ""},
+		{"{@map x {time live}}", "live", "inside-range-helper", ""},
+		{"{@map x {time delta}}", "delta", "inside-range-helper", ""},
+		{"{@reduce {@ 0 0} {sumi {0} {1} {time live}}}", "live", "inside-range-helper", ""},
+		{"{@for 0 {lt {1} 1} {time live}}{@select {@for 0 {lt {1} 2} {time live}} 1}", "live0", "inside-range-helper", ""},
+		{"{tnow x}", "live", "inside-funcs-function", "tnow {time live}\n"},
+		{"{tdelta x}", "delta", "inside-funcs-function", "tdelta {sumi {time delta} 0}\n"},
+		{"{tpass {time live}}", "live", "argument-of-funcs-function", "tpass {sumi {0} 0}\n"},
 	}
 }
 
@@ -448,7 +495,7 @@ func (e *env) timePhase() {
 			w.Eval(true)
 			w.Outcome("time", t.kind, strconv.Itoa(o), strconv.FormatBool(err == nil && n >= lo && n <= hi))
 			if err != nil || n < lo || n > hi {
-				w.Violation("C10/time-"+strings.TrimSuffix(t.kind, "0")+"-frozen",
+				w.Violation("C10/time-frozen/"+t.shape+"/"+strings.TrimSuffix(t.kind, "0"),
 					fmt.Sprintf("template %q (optimise=%v) compiled at unix %d..%d and evaluated at %d..%d returned %q; a value that varies with the clock must lie in [%d,%d]", t.tmpl, o == 0, b.c0, b.c1, before, after, v, lo, hi),
 					Case{Part: "time", Template: q(t.tmpl)})
 			}
